@@ -194,7 +194,8 @@ func (p propC19) Gen(r *simrt.Rand, idx int, tier string) any {
 	}
 	c := genSeqCase(r, seqProfile{prop: "C19", steps: [2]int{12, 40}, keys: [2]int{2, 4}, maxTx: 3, txWeight: 45, ctlWeight: 8, reopen: 12, readback: "all"})
 	// arbitrary key bytes (the inline client takes any string)
-	odd := []string{string([]byte{0xff, 0xfe, 0x00, 0x01}), "\x00", "a\nb", strings.Repeat("\xf0\x9f\x92\xa9", 3)}
+	odd := []string{string([]byte{0xff, 0xfe, 0x00, 0x01}), "\x00", "a\nb", strings.Repeat("\xf0\x9f\x92\xa9", 3),
+		strings.Repeat("k", 65001), strings.Repeat("long/", 20000)} // the inline client takes keys of any length
 	c.Keys = append(c.Keys, odd[r.Intn(len(odd))])
 	for i := range c.Ops {
 		if c.Ops[i].K == "reopen" {
